@@ -664,6 +664,11 @@ fn spawn_async_ao_list_in_task'''),
         ('descriptor-search-starts-at-62', 'brush-core/src/interp.rs', "    let mut candidate_fd_num = 63;", "    let mut candidate_fd_num = 62;"),
         ('descriptor-search-may-return-zero', 'brush-core/src/interp.rs', "        if candidate_fd_num == 0 {\n            return error::unimp(\"no available file descriptors\");\n        }\n    }\n\n    Ok((candidate_fd_num, target_file))", "        if candidate_fd_num < 0 {\n            return error::unimp(\"no available file descriptors\");\n        }\n    }\n\n    Ok((candidate_fd_num, target_file))"),
     ],
+    'U75': [
+        ('assignable-scalar-quoted-only-if-needed', 'brush-core/src/variables.rs', "            Self::String(s) => Ok(escape::force_quote(\n                s.as_str(),\n                escape::QuoteMode::SingleQuote,\n            )),", "            Self::String(s) => Ok(escape::quote_if_needed(\n                s.as_str(),\n                escape::QuoteMode::SingleQuote,\n            )\n            .into_owned()),"),
+        ('declare-p-scalar-single-quoted', 'brush-core/src/variables.rs', "                    Ok(escape::force_quote(s.as_str(), escape::QuoteMode::DoubleQuote).into())", "                    Ok(escape::force_quote(s.as_str(), escape::QuoteMode::SingleQuote).into())"),
+        ('missing-element-written-as-two-quotes', 'brush-core/src/variables.rs', "                    } else {\n                        Ok(String::new())\n                    }\n                } else {\n                    Ok(self.format(FormatStyle::DeclarePrint, shell)?.into_owned())", "                    } else {\n                        Ok(escape::force_quote(\"\", escape::QuoteMode::SingleQuote))\n                    }\n                } else {\n                    Ok(self.format(FormatStyle::DeclarePrint, shell)?.into_owned())"),
+    ],
     'U74': [
         ('substitution-pattern-stops-spanning-newlines', 'brush-core/src/expansion.rs', "                    .set_extended_globbing(self.parser_options.enable_extended_globbing)\n                    .set_case_insensitive(self.shell.options().case_insensitive_conditionals);\n\n                // If no replacement was provided", "                    .set_extended_globbing(self.parser_options.enable_extended_globbing)\n                    .set_multiline(false)\n                    .set_case_insensitive(self.shell.options().case_insensitive_conditionals);\n\n                // If no replacement was provided"),
         ('case-setter-also-clears-the-newline-flag', 'brush-core/src/patterns.rs', "        self.case_insensitive = value;\n        self", "        self.case_insensitive = value;\n        self.multiline = !value;\n        self"),
